@@ -170,6 +170,13 @@ impl LocalOpaquePool {
         self.inner.borrow().is_empty()
     }
 
+    /// Verification hook: read-only snapshot of the pool's bookkeeping, see `crate::verif`.
+    #[cfg(folo_verif)]
+    #[must_use]
+    pub fn verif_probe(&self) -> crate::verif::PoolProbe {
+        self.inner.borrow().verif_probe()
+    }
+
     /// Ensures that the pool has capacity for at least `additional` more objects.
     ///
     /// # Panics
